@@ -157,9 +157,9 @@ func (x *exec) end(e *Env) {
 	}
 }
 
-func (x *exec) nav(d, c int) *world.Nav {
+func (x *exec) nav(d, c int) xpath.NodeNavigator {
 	doc := x.docs[d%len(x.docs)]
-	return world.NewNav(doc, c, -1)
+	return world.NavFor(doc, c, -1)
 }
 
 // soloRun computes the reference outcome: fresh Compile, fresh navigator,
